@@ -349,6 +349,7 @@ func (e *Engine) freshRef(st *State, hint string) string {
 	al := e.allocGet(st)
 	st.assume(and(sx(">", r, "0"), not(sx("select", al, r))))
 	e.heapSet(st, "$alloc", "(Array Int Bool)", sx("store", al, r, "true"))
+	e.markPrivate(st, r)
 	return r
 }
 
@@ -375,6 +376,7 @@ func (e *Engine) named(st *State, hint, term, sort string) string {
 	n := e.freshName(hint)
 	st.declare(n, sort)
 	st.define(eq(n, term))
+	e.noteDef(n, term)
 	return n
 }
 
@@ -579,6 +581,21 @@ func (e *Engine) VerifyFunc(fn *ssa.Function, c *Contract, prop string) {
 	}
 	e.assertAxioms(st)
 	e.assumeGlobals(st)
+	for _, u := range c.Uses {
+		found := false
+		for _, l := range e.Lemmas {
+			if l.Name == u {
+				found = true
+				env := e.specEnv(l.Pkg)
+				env.st, env.sink = st, st
+				st.assume(e.evalBool(env, l.C))
+				e.usedLemmas[u] = true
+			}
+		}
+		if !found {
+			panic("spec error: use of unknown lemma " + u)
+		}
+	}
 	fr.entry = st.snapshot()
 	env := e.envFor(st, fr)
 	for _, rq := range c.Requires {
@@ -965,7 +982,17 @@ func (e *Engine) step(st *State, in ssa.Instruction) {
 			}
 		}
 		e.nilCheck(st, a, x, "store")
-		e.store(st, a, e.valTerm(v))
+		vt := e.valTerm(v)
+		if v.Ty == nil || carriesRef(v.Ty, 0) {
+			e.escapeStore(st, a, vt)
+		}
+		if a.Kind == aPtr && len(a.Path) == 0 && st.priv[a.Ref] {
+			if st.privClean == nil {
+				st.privClean = map[string]bool{}
+			}
+			st.privClean[a.Ref] = (v.Ty != nil && !carriesRef(v.Ty, 0)) || !e.mentionsPrivate(st, vt)
+		}
+		e.store(st, a, vt)
 	case *ssa.UnOp:
 		e.unop(st, x)
 	case *ssa.BinOp:
@@ -1114,7 +1141,16 @@ func (e *Engine) unop(st *State, x *ssa.UnOp) {
 		t := e.load(st, a)
 		fr := st.top()
 		ty := x.Type()
-		term := e.named(st, fr.fn.Name()+"."+x.Name(), t, e.sortOf(ty))
+		var term string
+		if a.Kind == aPtr && len(a.Path) == 0 && st.priv[a.Ref] && st.privClean[a.Ref] {
+			// a private cell that holds a value from outside (e.g. a captured
+			// parameter): the loaded value does not reveal the cell
+			term = e.freshName(fr.fn.Name() + "." + x.Name())
+			st.declare(term, e.sortOf(ty))
+			st.define(eq(term, t))
+		} else {
+			term = e.named(st, fr.fn.Name()+"."+x.Name(), t, e.sortOf(ty))
+		}
 		if a.Kind != aCell {
 			st.assume(e.rangeSt(st, term, ty))
 		}
